@@ -183,7 +183,7 @@ def triage_errfile(path):
         # first frame that lies in the repository's sources
         for fm in FRAME_RE.finditer(txt):
             fn, loc = fm.group(1), fm.group(2)
-            if "/src/" in loc and "/harness/" not in loc or "/include/ufw/" in loc:
+            if loc.startswith(REPO.rstrip("/") + "/") or loc.startswith(os.path.realpath(REPO) + "/"):
                 fields["func"] = fn
                 fields["file"] = os.path.basename(loc.split(":")[0])
                 break
